@@ -11,7 +11,7 @@ use std::collections::BTreeSet;
 
 use verif_core::{json, run_shards, Args, Budget, Report, Rng};
 use warp_core::{
-    IngressEnvelope, IngressTarget, ProvenanceService, ProvenanceStore, SchedulerCoordinator,
+    IngressEnvelope, IngressTarget, ProvenanceService, SchedulerCoordinator,
     WorldlineRuntime,
 };
 
@@ -351,11 +351,6 @@ impl Case<'_, '_> {
             "parent_activity_after_forks",
             if parent_quiet { "quiet" } else { "ticking" },
         );
-        let author_only: Vec<usize> = active
-            .iter()
-            .copied()
-            .filter(|l| !self.u.lanes[*l].shared)
-            .collect();
 
         // ---- phase B: divergence
         let steps = self.rng.range(2, 9);
@@ -465,7 +460,6 @@ impl Case<'_, '_> {
                 _ => {}
             }
         }
-        let _ = author_only;
         if self.rng.chance(1, 3) {
             self.u.drop_probe(&mut self.ctx);
         }
@@ -534,7 +528,6 @@ impl Case<'_, '_> {
                     break;
                 }
             }
-            let _ = pv.len(id);
         }
     }
 }
